@@ -91,6 +91,7 @@ pub fn search(rng: &mut Rng, budget: u64, fails: &mut Vec<Failure>) {
                 }
             }
         }
+        ymmd_canonical(y, m as u8, d as u8, fails);
         if let Ok(ym) = PlainYearMonth::new_with_overflow(y as i32, m as u8, None, Calendar::default(), ArithmeticOverflow::Reject) {
             let text = ym.to_ixdtf_string(DisplayCalendar::Auto);
             match catch_unwind(|| PlainYearMonth::from_str(&text)) {
@@ -131,5 +132,32 @@ pub fn search(rng: &mut Rng, budget: u64, fails: &mut Vec<Failure>) {
             }
         }
         if fails.len() >= 5 { return; }
+    }
+}
+
+/// canonical text of a year-month / month-day under each calendar display option (C11 / C18): the hidden reference part is
+/// printed exactly when the ISO calendar annotation is forced
+pub fn ymmd_canonical(y: i64, m: u8, d: u8, fails: &mut Vec<Failure>) {
+    let yt = if (0..=9999).contains(&y) { format!("{y:04}") } else { format!("{}{:06}", if y < 0 { '-' } else { '+' }, y.abs()) };
+    for (show, ann) in [(DisplayCalendar::Auto, None), (DisplayCalendar::Never, None), (DisplayCalendar::Always, Some("[u-ca=iso8601]")), (DisplayCalendar::Critical, Some("[!u-ca=iso8601]"))] {
+        for refday in [None, Some(d)] {
+            if let Ok(Ok(ym)) = catch_unwind(|| PlainYearMonth::new_with_overflow(y as i32, m, refday, Calendar::default(), ArithmeticOverflow::Reject)) {
+                let want = match ann { None => format!("{yt}-{m:02}"), Some(a) => format!("{yt}-{m:02}-{:02}{a}", refday.unwrap_or(1)) };
+                match catch_unwind(|| ym.to_ixdtf_string(show)) {
+                    Ok(t) if t == want => {}
+                    other => fails.push(Failure { what: "PlainYearMonth canonical text".into(), input: format!("{y}-{m} reference day {refday:?} display {show:?}"), expected: want, observed: format!("{other:?}") }),
+                }
+            }
+        }
+        for refyear in [None, Some(y as i32)] {
+            if let Ok(Ok(md)) = catch_unwind(|| PlainMonthDay::new_with_overflow(m, d, Calendar::default(), ArithmeticOverflow::Reject, refyear)) {
+                let ry = refyear.map(|_| yt.clone()).unwrap_or("1972".into());
+                let want = match ann { None => format!("{m:02}-{d:02}"), Some(a) => format!("{ry}-{m:02}-{d:02}{a}") };
+                match catch_unwind(|| md.to_ixdtf_string(show)) {
+                    Ok(t) if t == want => {}
+                    other => fails.push(Failure { what: "PlainMonthDay canonical text".into(), input: format!("{m}-{d} reference year {refyear:?} display {show:?}"), expected: want, observed: format!("{other:?}") }),
+                }
+            }
+        }
     }
 }
